@@ -5,6 +5,9 @@ for _g in range(1, _NG + 1):
 
 def _runs(tier, _NG=_NG):
     d = "2" if tier == "quick" else "3"
-    return [{"harness": "c13_g%d" % g, "args": ["--depth", d], "budget": 240 if tier == "quick" else 2400} for g in range(1, _NG + 1)]
+    # the heaviest groups first (3 runs at a time); the budget is a cap, not the expected time: the new groups
+    # complete in 20-130 s each on an idle machine, but the machine is usually shared
+    order = [7, 9, 10] + [g for g in range(1, _NG + 1) if g not in (7, 9, 10)]
+    return [{"harness": "c13_g%d" % g, "args": ["--depth", d], "budget": (420 if g >= 7 else 240) if tier == "quick" else 2400} for g in order]
 
-CHECKS = {"C13": {"runs": _runs, "level": "model_checking", "parallel_runs": 3, "deadline": {"quick": 280, "thorough": 2700}}}
+CHECKS = {"C13": {"runs": _runs, "level": "model_checking", "parallel_runs": 3, "deadline": {"quick": 420, "thorough": 2700}}}
